@@ -60,6 +60,11 @@ def run_segment(ld, n, cdir, ops, sleep=0.0, handles=None):
                     outs.append(['nohandle'])
                 elif k == 'get':
                     outs.append(['val', int(d[op[2]])])
+                elif k == 'getnp':
+                    import numpy as np
+                    outs.append(['val', int(d[np.int64(op[2])])])
+                elif k == 'slice':
+                    outs.append(['vals', [int(x) for x in d[op[2]:op[3]]]])
                 elif k == 'copy':
                     handles.append(d.copy(freeze=True))
                     outs.append(['new', len(handles) - 1])
@@ -121,8 +126,11 @@ def inspect_dir(cdir):
     if exists:
         import diskcache
         c = diskcache.Cache(cdir)
-        stored = sorted(int(k) for k in c.iterkeys())
-        bad = [k for k in stored if c[k] != k * 10 + 1]
+        keys = list(c.iterkeys())
+        stored = sorted(int(k) for k in keys)
+        if len(set(stored)) != len(stored):
+            stored.append(-2)        # the same example stored under two keys
+        bad = [k for k in keys if c[k] != int(k) * 10 + 1]
         c.close()
         if bad:
             stored.append(-1)
@@ -136,7 +144,10 @@ def coq_ops(segments):
         for op in ops:
             k = op[0]
             if k == 'open': out.append(f'DOpen {b(op[1])} {b(op[2])}')
-            elif k == 'get': out.append(f'DGet nat {op[1]}%nat {gen_a.z(op[2])}' .replace('DGet nat', 'DGet'))
+            elif k in ('get', 'getnp'): out.append(f'DGet {op[1]}%nat {gen_a.z(op[2])}')
+            elif k == 'slice':
+                for i in range(op[2], op[3]):
+                    out.append(f'DGet {op[1]}%nat {i}')
             elif k == 'copy': out.append(f'DCopyH {op[1]}%nat')
             elif k == 'release': out.append(f'DRelease {op[1]}%nat')
         if si != len(segments) - 1:
@@ -155,11 +166,27 @@ def coq_out(o):
     raise ValueError(o)
 
 
+def flat_outs(segments, outs):
+    """a slice iteration is a sequence of gets in the model"""
+    ops = [op for si, seg in enumerate(segments) for op in (seg + ([['kill']] if si != len(segments) - 1 else []))]
+    res = []
+    for op, o in zip(ops, outs):
+        if op[0] == 'slice':
+            if o[0] == 'vals':
+                res += [['val', v] for v in o[1]]
+            else:
+                res += [o] * (op[3] - op[2])
+        else:
+            res.append(o)
+    return res
+
+
 def coq_case(n, segments, res):
     outs, calls, exists, stored = res
+    outs = flat_outs(segments, outs)
     return '(mkDC %d%%nat [%s] [%s] [%s] %s [%s])' % (
         n, '; '.join(coq_ops(segments)), '; '.join(coq_out(o) for o in outs), '; '.join(f'{c}%nat' for c in calls),
-        'true' if exists else 'false', '; '.join(f'{k}%nat' for k in stored if k >= 0))
+        'true' if exists else 'false', '; '.join(f'{k}%nat' for k in sorted(set(stored)) if k >= 0))
 
 
 def eval_cases(cases, tag):
@@ -249,11 +276,14 @@ def gen_history_consistent(r, n, nseg):
                 nh += 1
                 continue
             h = r.choice(list(live))
-            k = r.choice(['get', 'get', 'get', 'copy', 'release', 'release'])
+            k = r.choice(['get', 'get', 'getnp', 'slice', 'copy', 'release', 'release'])
             if r.random() < 0.05:
                 h = nh + 3
-            if k == 'get':
-                ops.append(['get', h, r.randint(-n - 1, n)])
+            if k in ('get', 'getnp'):
+                ops.append([k, h, r.randint(-n - 1, n)])
+            elif k == 'slice':
+                a, b = sorted([r.randint(0, n), r.randint(0, n)])
+                ops.append(['slice', h, a, b])
             elif k == 'copy':
                 ops.append(['copy', h])
                 if h in live:
@@ -277,6 +307,8 @@ def direct(n, segments, res):
     fails = []
     if -1 in stored:
         fails.append('the directory holds a corrupt or misplaced example')
+    if -2 in stored:
+        fails.append(f'the directory holds the same example under two different keys: {stored}')
     for o in outs:
         if o[0] == 'val' and (o[1] - 1) % 10 != 0:
             fails.append(f'value {o[1]} is not a pipeline value')
